@@ -21,6 +21,9 @@ pub enum Input {
     /// valid header (cookie, correct declared length) followed by arbitrary bytes
     Soup { mtype: u16, body: Hex, fix_len: bool },
     Bytes(Hex),
+    /// well-formed message whose attributes carry valid or one-step-from-valid values of the
+    /// built-in types (the typed decoders get past their first checks)
+    NearValid { mtype: u16, tlvs: Vec<(u16, Hex)>, fp: bool },
 }
 
 #[derive(Debug, Clone, Serialize, Deserialize)]
@@ -57,6 +60,17 @@ pub fn input_bytes(i: &Input) -> Vec<u8> {
             b
         }
         Input::Bytes(h) => h.0.clone(),
+        Input::NearValid { mtype, tlvs, fp } => {
+            let mut b = refstun::header(*mtype & 0x3fff, 0, 0x0102_0304_0506_0708_090a_0b0c);
+            for (ty, v) in tlvs {
+                refstun::push_tlv(&mut b, *ty, &v.0, 0);
+            }
+            if *fp && !tlvs.iter().any(|(t, _)| *t == refstun::T_FP) {
+                refstun::push_fp(&mut b);
+            }
+            refstun::set_len(&mut b);
+            b
+        }
     }
 }
 
@@ -332,6 +346,7 @@ fn test(c: &Case, st: &mut Stats) -> TestResult {
         Input::Built { .. } => "mutated well-formed message",
         Input::Soup { .. } => "valid header + attribute soup",
         Input::Bytes(_) => "fixed bytes",
+        Input::NearValid { .. } => "well-formed message with near-valid built-in attribute values",
     };
     st.class(class);
     let lc = match bytes.len() {
@@ -404,6 +419,22 @@ pub fn input_strategy(huge_pct: u32) -> BoxedStrategy<Input> {
         4 => (gen::msg_spec(gen::seal_strategy(false, false), 6, huge_pct), gen::byte_mutations(2))
             .prop_map(|(spec, muts)| Input::Built { spec, muts }),
         3 => (any::<u16>(), soup_body(), any::<bool>()).prop_map(|(mtype, body, fix_len)| Input::Soup { mtype, body: Hex(body), fix_len }),
+        4 => (gen::wire_type(), vec(gen::near_valid_attr(), 1..5), any::<bool>()).prop_map(|(mtype, tlvs, fp)| Input::NearValid {
+            mtype,
+            tlvs: {
+                // tail-typed attributes go last, in the only order the parser admits
+                let rank = |t: u16| match t {
+                    0x0008 => 1,
+                    0x001C => 2,
+                    0x8028 => 3,
+                    _ => 0,
+                };
+                let mut tlvs: Vec<(u16, Hex)> = tlvs.into_iter().map(|(t, v)| (t, Hex(v))).collect();
+                tlvs.sort_by_key(|(t, _)| rank(*t));
+                tlvs
+            },
+            fp,
+        }),
     ]
     .boxed()
 }
